@@ -1,0 +1,22 @@
+//go:build verif
+
+package modules
+
+import "time"
+
+// VerifHook is called at named yield points of the stop protocol, the task handlers and the
+// microtask scheduler when built with the "verif" tag. A conformance harness installs a function
+// that blocks the calling goroutine until its scheduler releases it, and may log the point.
+var VerifHook func(point string, m *Module)
+
+func verifPoint(point string, m *Module) {
+	if h := VerifHook; h != nil {
+		h(point, m)
+	}
+}
+
+// VerifSetTimeouts overrides the module start and stop timeouts.
+func VerifSetTimeouts(start, stop time.Duration) {
+	moduleStartTimeout = start
+	moduleStopTimeout = stop
+}
